@@ -16,7 +16,7 @@ RULE = ('one run = a model (sample, synthesised graph of any block type x versio
         'distinct (initial state, effective step trace).')
 ASSUMPTIONS = ['only valid ids and permutations are issued (API preconditions)', 'geometry-data blocks cached by a NiGeometry are not deleted/replaced through the header (dangling cache inside one model: not this property)',
                'references of an added block are those its Get serialises in the model\'s version; others stay empty', 'pruning is not issued while the model has unknown blocks']
-EXPECTED_PROBES = ['op_add', 'op_delete', 'op_replace', 'op_reorder', 'op_delete_by_type', 'op_delete_by_type_orphaned', 'op_prune', 'deleted_referenced_block', 'op_replace_same_type', 'op_delete_via_stored_ref']
+EXPECTED_PROBES = ['op_add', 'op_delete', 'op_replace', 'op_reorder', 'op_delete_by_type', 'op_delete_by_type_orphaned', 'op_prune', 'deleted_referenced_block', 'op_replace_same_type', 'op_delete_via_stored_ref', 'op_pretty_sort']
 
 
 def gen_plan(seed, i, tier):
@@ -42,7 +42,7 @@ def gen_plan(seed, i, tier):
         init = {'create': rng.choice(synth.VERSIONS)}
     steps = []
     for _ in range(rng.range(3, 25 if tier == 'thorough' else 14)):
-        op = rng.weighted([('AddBlock', 6), ('DeleteBlock', 5), ('ReplaceBlock', 2), ('SetBlockOrder', 3), ('DeleteByType', 2), ('DeleteUnref', 1), ('Restart', 1)])
+        op = rng.weighted([('AddBlock', 6), ('DeleteBlock', 5), ('ReplaceBlock', 2), ('SetBlockOrder', 3), ('DeleteByType', 2), ('DeleteUnref', 1), ('Restart', 1), ('PrettySort', 1)])
         st = {'op': op, 'block': rng.below(1 << 16)}
         if op in ('AddBlock', 'ReplaceBlock'):
             st.update({'type': rng.below(100000), 'seed': rng.below(1 << 20), 'wire': rng.below(1 << 20)})
